@@ -223,6 +223,11 @@ def histOp (cx : Bool) (st : HistState) (op : String) : HistState × Int :=
     match st.reg.lookup desc with
     | some inst => (st, (fragmentSizeQ inst 1000 : Nat))
     | none => (st, -EBACKENDNOTAVAIL)
+  else if kind == "n" then
+    -- `n:<v>`: the exported counter next_backend_desc is overwritten mid-history
+    match (String.ofList (chars.drop 2)).toInt? with
+    | some v => ({ st with reg := { st.reg with next := v } }, 0)
+    | none => (st, -12345)
   else (st, -12345)
 
 def stepHist (cx : Bool) (preset : String) (ops : String) : String :=
@@ -237,12 +242,21 @@ def stepHist (cx : Bool) (preset : String) (ops : String) : String :=
 
 def tolOf (be m hd : Nat) : Nat := if be == 3 then hd - 1 else m
 
-def stepLedger (be k m hd calls : String) : String :=
-  match be.toNat?, k.toNat?, m.toNat?, hd.toNat? with
-  | some be, some k, some m, some hd =>
+/-- `pat`: the set of fragments withheld by the S / U / R calls, as a bit mask.  The ledger does not
+    depend on which fragments are withheld as long as there are between 1 and `tol` of them and a
+    data fragment is among them (the decode then takes the slow path and succeeds); anything else is
+    not a history of this suite. -/
+def patOK (k m tol pat : Nat) : Bool :=
+  let bits := (List.range (k + m)).filter fun i => pat.testBit i
+  pat < 2 ^ (k + m) && 1 ≤ bits.length && bits.length ≤ tol && bits.any (· < k)
+
+def stepLedger (be k m hd calls pat : String) : String :=
+  match be.toNat?, k.toNat?, m.toNat?, hd.toNat?, pat.toNat? with
+  | some be, some k, some m, some hd, some pat =>
+    if !patOK k m (tolOf be m hd) pat then "bad-op" else
     let vals := ledgerRun be k m (tolOf be m hd) calls.toList
     ",".intercalate (vals.map toString) ++ "|0"
-  | _, _, _, _ => "bad-op"
+  | _, _, _, _, _ => "bad-op"
 
 def stepFault (be op n : String) : String :=
   match be.toNat?, op.toNat?, n.toNat? with
@@ -254,7 +268,7 @@ def stepFault (be op n : String) : String :=
 
 def stepAll (cx : Bool) (line : String) : String :=
   match line.trimAscii.toString.splitOn " " with
-  | ["ledger", be, k, m, hd, calls] => stepLedger be k m hd calls
+  | ["ledger", be, k, m, hd, calls, pat] => stepLedger be k m hd calls pat
   | ["fault", be, _, _, _, op, n] => stepFault be op n
   | ["pure", _] => "same"
   | "conc" :: _ => "ok"
